@@ -570,3 +570,140 @@ func init() {
 		},
 	})
 }
+
+// L3: the sending side of the same clause: a Send whose context is cancelled while its frame waits for space in the
+// write queue has already taken its bytes out of the send window.
+func init() {
+	vexp.Register(&vexp.Scenario{
+		Name: "c07.L3.send-cancelled-while-waiting-for-write-queue", Prop: "C07", MaxSteps: 200000,
+		Bounds: func(thorough bool) vexp.Bounds {
+			if thorough {
+				return vexp.Bounds{P: 1, F: 1, E: 0}
+			}
+			return vexp.Bounds{P: 1, F: 0, E: 0}
+		},
+		Configs: func(thorough bool) []map[string]int {
+			return []map[string]int{{"window": 4096, "writeq": 64, "rbuf": 16, "wbuf": 16, "size": 4096, "first": 0}, {"window": 4096, "writeq": 64, "rbuf": 16, "wbuf": 16, "size": 2048, "first": 0},
+				{"window": 4096, "writeq": 64, "rbuf": 16, "wbuf": 16, "size": 2048, "first": 1}}
+		},
+		Doc: "real client and server connections, window 4096. The server stops reading, the client's sibling channel B fills the 64-byte write queue until its Send blocks. The client then calls Send(ctx, m1) on channel A (first=0: A is open already; first=1: m1 is the message that opens A): the message is admitted by the window and waits for queue space; ctx is cancelled and Send fails. The server reads again and the client sends m2, m3 of the same size with a live context and ends the channel; the server's handler consumes everything: the later Sends must be admitted and delivered in order, the handler must see the end (the bytes of the message that was never sent must not stay charged to the window, a channel whose opening message failed must still be opened for its peer)",
+		Body: func(x *vexp.Ctx) {
+			size := x.P("size", 4096)
+			first := x.P("first", 0) == 1
+			var got [][]byte
+			aEnd, bEnd := false, false
+			handler := HandleFunc(func(ctx Context, ch Channel) status.Status {
+				msg, st := ch.Receive(async.NoContext())
+				if !st.OK() {
+					return st
+				}
+				if string(msg) == "b" {
+					for {
+						if _, st := ch.Receive(async.NoContext()); !st.OK() {
+							bEnd = true
+							return status.OK
+						}
+					}
+				}
+				if string(msg) != "A" {
+					got = append(got, append([]byte{}, msg...))
+				}
+				for {
+					m, st := ch.Receive(async.NoContext())
+					if !st.OK() {
+						aEnd = st.Code == status.CodeEnd
+						return status.OK
+					}
+					got = append(got, append([]byte{}, m...))
+				}
+			})
+			w := newWide(x, handler)
+			live := async.NoContext()
+			chA, st := w.cli.Channel(live)
+			if !st.OK() {
+				x.Fail("Channel fails on a healthy connection", "%v", st)
+				return
+			}
+			chB, st := w.cli.Channel(live)
+			if !st.OK() {
+				x.Fail("Channel fails on a healthy connection", "%v", st)
+				return
+			}
+			if !first {
+				chA.Send(live, []byte("A"))
+			}
+			chB.Send(live, []byte("b"))
+			vsched.WaitIdle("channels open")
+			w.b.StallAfterRead(0, nil)
+			w.a.SetWriteCapacity(32)
+			bDone := false
+			vsched.GoNamed("client.B", func() {
+				for k := 0; k < 3; k++ {
+					if st := chB.Send(live, vPayload(0, 1, k, 1995)); !st.OK() {
+						break
+					}
+				}
+				chB.Free()
+				bDone = true
+			})
+			vsched.WaitIdle("write queue full, B blocked")
+			cctx := async.NewContext()
+			defer cctx.Free()
+			aDone := false
+			var sts []string
+			var sent [][]byte
+			step := 0
+			vsched.GoNamed("client.A", func() {
+				defer func() { aDone = true }()
+				defer chA.Free()
+				m1 := vPayload(0, 0, 0, size)
+				st := chA.Send(cctx, m1)
+				sts = append(sts, string(st.Code))
+				if st.OK() {
+					sent = append(sent, m1)
+				}
+				step = 1
+				vsched.Join("server reads again", func() bool { return step == 2 })
+				for k := 1; k < 3; k++ {
+					m := vPayload(0, 0, k, size)
+					st := chA.Send(live, m)
+					sts = append(sts, string(st.Code))
+					if st.OK() {
+						sent = append(sent, m)
+					}
+				}
+			})
+			vsched.WaitIdle("A's first Send waits for the write queue")
+			cctx.Cancel()
+			vsched.Join("first Send returned", func() bool { return step == 1 })
+			w.b.Unstall()
+			step = 2
+			vsched.Join("all done", func() bool { return aDone && bDone && bEnd && (aEnd || len(sent) == 0) })
+			for k := 1; k < len(sts); k++ {
+				if sts[k] != string(status.CodeOK) {
+					x.Fail("Send with a live context fails on a healthy connection after an earlier Send was cancelled", "statuses %v", sts)
+				}
+			}
+			// what arrived must be the sent messages in order (the cancelled one may or may not be among them)
+			j := 0
+			for _, g := range got {
+				for j < len(sent) && string(sent[j]) != string(g) {
+					j++
+				}
+				if j == len(sent) {
+					x.Fail("the receiver got a message that was not sent, or out of order", "got %d messages, sent OK %d, statuses %v", len(got), len(sent), sts)
+					break
+				}
+				j++
+			}
+			if len(got) < len(sent) {
+				x.Fail("messages whose Send returned OK are missing although the receiver consumed to the end", "sent OK %d, received %d, statuses %v", len(sent), len(got), sts)
+			}
+			for _, e := range w.log.bad() {
+				x.Fail("error logged: "+errSig(e), "%s", e)
+			}
+			x.Outcome = fmt.Sprintf("sts=%v got=%d end=%v", sts, len(got), aEnd)
+			w.shutdown()
+		},
+	})
+}
